@@ -40,6 +40,90 @@ theorem contains_popAll (d : AList String Val) (hd : (keys d).Nodup) (names : Li
   simp only [contains, lookup_popAll d hd]
   by_cases h : n ∈ names <;> simp [h]
 
+theorem lookup_filter_nodup (e : AList String Val) (hn : (keys e).Nodup) (p : String × Val → Bool) (n : String) :
+    lookup n (e.filter p) = (match lookup n e with
+      | some v => if p (n, v) then some v else none
+      | none => none) := by
+  induction e with
+  | nil => simp [lookup]
+  | cons kv rest ih =>
+    obtain ⟨k, v⟩ := kv
+    simp only [keys, List.map_cons, List.nodup_cons] at hn
+    have ih' := ih hn.2
+    by_cases hk : k = n
+    · subst hk
+      have hnone : lookup k rest = none := by
+        cases hl : lookup k rest with
+        | none => rfl
+        | some w => exact absurd ((lookup_isSome_iff k rest).1 (by simp [hl])) hn.1
+      simp only [lookup, if_true]
+      by_cases hp : p (k, v) = true
+      · simp [List.filter, hp, lookup]
+      · have hp' : p (k, v) = false := by simpa using hp
+        simp only [List.filter, hp', lookup]
+        rw [ih', hnone]
+        simp
+    · simp only [lookup, hk, if_false]
+      by_cases hp : p (k, v) = true
+      · simp only [List.filter, hp, lookup, hk, if_false]; exact ih'
+      · have hp' : p (k, v) = false := by simpa using hp
+        simp only [List.filter, hp']; exact ih'
+
+theorem contains_dropMarkers (e : AList String Val) (hn : (keys e).Nodup) (n : String) :
+    contains n (dropMarkers e) = (match lookup n e with | some v => !v.isRequired | none => false) := by
+  simp only [contains, dropMarkers, lookup_filter_nodup e hn]
+  cases lookup n e with
+  | none => rfl
+  | some v => cases hv : v.isRequired <;> simp [hv]
+
+theorem contains_markerNames (e : AList String Val) (hn : (keys e).Nodup) (n : String) :
+    (markerNames e).contains n = (match lookup n e with | some v => v.isRequired | none => false) := by
+  have h1 : (markerNames e).contains n = contains n (e.filter (fun kv => kv.2.isRequired)) := by
+    simp only [markerNames, contains]
+    rw [Bool.eq_iff_iff, List.contains_iff_mem, lookup_isSome_iff]
+    rfl
+  rw [h1]
+  simp only [contains, lookup_filter_nodup e hn]
+  cases lookup n e with
+  | none => rfl
+  | some v => cases hv : v.isRequired <;> simp [hv]
+
+theorem contains_filter_list (l : List String) (p : String → Bool) (n : String) :
+    (l.filter p).contains n = (l.contains n && p n) := by
+  rw [Bool.eq_iff_iff]
+  simp only [List.contains_iff_mem, List.mem_filter, Bool.and_eq_true]
+
+theorem contains_kwSupplied (kwargs : AList String Val) (hkn : (keys kwargs).Nodup) (n : String) :
+    (kwSupplied kwargs).contains n = (match lookup n kwargs with | some v => !v.isRequired | none => false) := by
+  have h1 : (kwSupplied kwargs).contains n = contains n (dropMarkers kwargs) := by
+    simp only [kwSupplied, dropMarkers, contains]
+    rw [Bool.eq_iff_iff, List.contains_iff_mem, lookup_isSome_iff]
+    rfl
+  rw [h1, contains_dropMarkers kwargs hkn]
+
+theorem kwSupplied_subset_keys (kwargs : AList String Val) (n : String) (h : contains n kwargs = false) :
+    (kwSupplied kwargs).contains n = false := by
+  rw [Bool.eq_false_iff]
+  intro hc
+  have hm := List.contains_iff_mem.1 hc
+  simp only [kwSupplied, List.mem_map, List.mem_filter] at hm
+  obtain ⟨kv, ⟨hin, _⟩, rfl⟩ := hm
+  have : contains kv.1 kwargs = true := (contains_iff kv.1 kwargs).2 (mem_keys_of_mem _ kv.1 kv.2 hin)
+  rw [this] at h; exact absurd h (by decide)
+
+/-- a name has no usable binding iff it is neither bound to a value nor bound to the marker -/
+theorem unbound_iff (e : AList String Val) (hn : (keys e).Nodup) (n : String) :
+    (!contains n (dropMarkers e) && !(markerNames e).contains n) = !contains n e := by
+  rw [contains_dropMarkers e hn, contains_markerNames e hn]
+  simp only [contains]
+  cases lookup n e with
+  | none => rfl
+  | some v => cases hv : v.isRequired <;> simp [hv]
+
+theorem nodup_keys_dropMarkers (e : AList String Val) (hn : (keys e).Nodup) : (keys (dropMarkers e)).Nodup := by
+  unfold dropMarkers keys
+  exact (List.Sublist.map _ (List.filter_sublist)).nodup hn
+
 /-- The names the wrapper reports as missing, stated against the overlay of bindings: the
     positionally marked names, the signature-level REQUIRED names the caller did not supply, and the
     keyword-marked names — each only if no applicable binding exists. -/
@@ -56,26 +140,44 @@ def missingSpec (c : Cfgable) (cfg : Store) (σ : Scope) (args : List Val)
 def KwDisjoint (c : Cfgable) (args : List Val) (kwargs : AList String Val) : Prop :=
   ∀ k, k ∈ keys kwargs → k ∉ c.sig.args.take args.length
 
+/-- the parameters whose binding is, or evaluates to, the marker itself (after the bindings of positionally supplied
+    names were dropped): such a binding supplies nothing and is reported like a missing one -/
+def markedSpec (ev : Val → Val) (c : Cfgable) (cfg : Store) (σ : Scope) (args : List Val)
+    (kwargs : AList String Val) : List String :=
+  let argNames := c.sig.args.take args.length
+  (markerNames (evalKw ev (popAll (getBindings cfg c.selector σ)
+    (argNames.filter (fun n => !(reqNamesOf argNames args).contains n))))).filter
+    (fun n => !(kwSupplied kwargs).contains n)
+
 theorem phaseC_missing_eq (ev : Val → Val) (c : Cfgable) (cfg : Store) (σ : Scope)
-    (args : List Val) (kwargs : AList String Val) (hd : KwDisjoint c args kwargs) :
+    (args : List Val) (kwargs : AList String Val) (hd : KwDisjoint c args kwargs) (hkn : (keys kwargs).Nodup) :
     let bound := getBindings cfg c.selector σ
     let argNames := c.sig.args.take args.length
     let reqNames := reqNamesOf argNames args
     let callerReq := (kwargs.filter (fun kv => kv.2.isRequired)).map (·.1)
-    let evd := evalKw ev (popAll bound (argNames.filter (fun n => !reqNames.contains n)))
+    let evd0 := evalKw ev (popAll bound (argNames.filter (fun n => !reqNames.contains n)))
+    let marked := (markerNames evd0).filter (fun n => !(kwSupplied kwargs).contains n)
+    let evd := dropMarkers evd0
     let kw := popAll evd reqNames
-    reqNames.filter (fun n => !contains n evd)
+    reqNames.filter (fun n => !contains n evd && !marked.contains n)
       ++ c.requiredKwargs.filter (fun rk =>
-          !argNames.contains rk && !contains rk kwargs && !contains rk kw)
-      ++ callerReq.filter (fun rk => !contains rk kw)
+          !argNames.contains rk && !contains rk kwargs && !contains rk kw && !marked.contains rk)
+      ++ callerReq.filter (fun rk => !contains rk kw && !marked.contains rk)
     = missingSpec c cfg σ args kwargs := by
-  intro bound argNames reqNames callerReq evd kw
+  intro bound argNames reqNames callerReq evd0 marked evd kw
   have hb : (keys bound).Nodup := getBindings_nodup cfg c.selector σ
-  have hevd : ∀ n, contains n evd =
+  have hevd0 : ∀ n, contains n evd0 =
       (!(argNames.filter (fun n => !reqNames.contains n)).contains n && contains n bound) := by
-    intro n; simp only [evd, contains_evalKw, contains_popAll bound hb]
-  have hevdn : (keys evd).Nodup := by
-    simp only [evd, evalKw, keys_map_val]; exact nodup_keys_popAll bound hb _
+    intro n; simp only [evd0, contains_evalKw, contains_popAll bound hb]
+  have hevd0n : (keys evd0).Nodup := by
+    simp only [evd0, evalKw, keys_map_val]; exact nodup_keys_popAll bound hb _
+  have hevdn : (keys evd).Nodup := nodup_keys_dropMarkers evd0 hevd0n
+  have hun : ∀ n, (kwSupplied kwargs).contains n = false →
+      (!contains n evd && !marked.contains n) = !contains n evd0 := by
+    intro n hks
+    have : marked.contains n = (markerNames evd0).contains n := by
+      simp only [marked, contains_filter_list, hks, Bool.not_false, Bool.and_true]
+    rw [this]; exact unbound_iff evd0 hevd0n n
   have hkw : ∀ n, contains n kw = (!reqNames.contains n && contains n evd) := by
     intro n; simp only [kw, contains_popAll evd hevdn]
   unfold missingSpec
@@ -92,7 +194,13 @@ theorem phaseC_missing_eq (ev : Val → Val) (c : Cfgable) (cfg : Store) (σ : S
       have h1 := (List.mem_filter.1 (List.contains_iff_mem.1 hc)).2
       rw [List.contains_iff_mem.2 hn] at h1
       exact absurd h1 (by decide)
-    rw [hevd n, hf]
+    have hks : (kwSupplied kwargs).contains n = false := by
+      apply kwSupplied_subset_keys
+      cases hc : contains n kwargs with
+      | false => rfl
+      | true =>
+        exact absurd (mem_reqNamesOf argNames args n hn) (hd n ((contains_iff n kwargs).1 hc))
+    rw [hun n hks, hevd0 n, hf]
     simp only [Bool.not_false, Bool.true_and]
   · apply List.filter_congr
     intro rk _
@@ -110,8 +218,16 @@ theorem phaseC_missing_eq (ev : Val → Val) (c : Cfgable) (cfg : Store) (σ : S
         | true =>
           have := (List.mem_filter.1 (List.contains_iff_mem.1 hc)).1
           exact absurd (List.contains_iff_mem.2 this) hrk
-      rw [hkw, hevd, h1, h2]
-      simp only [Bool.not_false, Bool.true_and]
+      cases hck : contains rk kwargs with
+      | true => simp only [Bool.not_true, Bool.and_false, Bool.false_and]
+      | false =>
+        have hks := kwSupplied_subset_keys kwargs rk hck
+        have hk : (!contains rk kw && !marked.contains rk) = !contains rk bound := by
+          rw [hkw, h1]
+          simp only [Bool.not_false, Bool.true_and]
+          rw [hun rk hks, hevd0 rk, h2]
+          simp only [Bool.not_false, Bool.true_and]
+        rw [Bool.and_assoc, hk]
   · apply List.filter_congr
     intro rk hrk
     have hk : rk ∈ keys kwargs := by
@@ -127,43 +243,68 @@ theorem phaseC_missing_eq (ev : Val → Val) (c : Cfgable) (cfg : Store) (σ : S
       cases hc : (argNames.filter (fun n => !reqNames.contains n)).contains rk with
       | false => rfl
       | true => exact absurd (List.mem_filter.1 (List.contains_iff_mem.1 hc)).1 hna
-    rw [hkw, hevd, h1, h2]
+    have hks : (kwSupplied kwargs).contains rk = false := by
+      rw [contains_kwSupplied kwargs hkn]
+      have hcm : (markerNames kwargs).contains rk = true := List.contains_iff_mem.2 hrk
+      rw [contains_markerNames kwargs hkn] at hcm
+      cases hl : lookup rk kwargs with
+      | none => rfl
+      | some v => rw [hl] at hcm; simp only at hcm ⊢; simp [hcm]
+    rw [hkw, h1]
+    simp only [Bool.not_false, Bool.true_and]
+    rw [hun rk hks, hevd0 rk, h2]
     simp only [Bool.not_false, Bool.true_and]
 
-/-- If some marked parameter has no applicable binding, the call fails — before the wrapped function
-    is reached — with an error listing exactly the unfilled parameters in signature order. -/
+/-- If some marked parameter has no applicable binding — or a parameter's binding is the marker itself —, the call
+    fails, before the wrapped function is reached, with an error listing exactly those parameters in signature order. -/
 theorem missing_reported (ev : Val → Val) (c : Cfgable) (cfg : Store) (σ : Scope)
     (args : List Val) (kwargs : AList String Val)
     (hnv : (args.drop (c.sig.args.take args.length).length).any Val.isRequired = false)
-    (hd : KwDisjoint c args kwargs)
-    (hm : missingSpec c cfg σ args kwargs ≠ []) :
+    (hd : KwDisjoint c args kwargs) (hkn : (keys kwargs).Nodup)
+    (hm : markedSpec ev c cfg σ args kwargs ++ missingSpec c cfg σ args kwargs ≠ []) :
     wrapperCall ev c cfg σ args kwargs =
-      .error (.missingRequired (orderBySignature c.sig (missingSpec c cfg σ args kwargs))) := by
-  have heq := phaseC_missing_eq ev c cfg σ args kwargs hd
+      .error (.missingRequired (orderBySignature c.sig
+        (markedSpec ev c cfg σ args kwargs ++ missingSpec c cfg σ args kwargs))) := by
+  have heq := phaseC_missing_eq ev c cfg σ args kwargs hd hkn
   unfold wrapperCall phaseA
   simp only [hnv, Bool.false_eq_true, if_false, phaseC]
   simp only [] at heq
+  simp only [List.append_assoc] at heq ⊢
   rw [heq]
-  have : (missingSpec c cfg σ args kwargs).isEmpty = false := by
-    cases h : missingSpec c cfg σ args kwargs with
+  have : (markedSpec ev c cfg σ args kwargs ++ missingSpec c cfg σ args kwargs).isEmpty = false := by
+    cases h : markedSpec ev c cfg σ args kwargs ++ missingSpec c cfg σ args kwargs with
     | nil => exact absurd h hm
     | cons _ _ => rfl
-  simp [this]
+  unfold markedSpec at this ⊢
+  simp only [this, Bool.not_false, if_true]
 
-/-- Conversely, when every marked parameter has an applicable binding, the REQUIRED bookkeeping
-    lets the call through. -/
+/-- Conversely, when every marked parameter has an applicable binding and no binding is the marker itself, the
+    REQUIRED bookkeeping lets the call through. -/
 theorem all_filled_passes (ev : Val → Val) (c : Cfgable) (cfg : Store) (σ : Scope)
     (args : List Val) (kwargs : AList String Val)
     (hnv : (args.drop (c.sig.args.take args.length).length).any Val.isRequired = false)
-    (hd : KwDisjoint c args kwargs)
+    (hd : KwDisjoint c args kwargs) (hkn : (keys kwargs).Nodup)
+    (hmk : markedSpec ev c cfg σ args kwargs = [])
     (hm : missingSpec c cfg σ args kwargs = []) :
     ∃ d op, wrapperCall ev c cfg σ args kwargs = .ok (d, op) := by
-  have heq := phaseC_missing_eq ev c cfg σ args kwargs hd
+  have heq := phaseC_missing_eq ev c cfg σ args kwargs hd hkn
   unfold wrapperCall phaseA
   simp only [hnv, Bool.false_eq_true, if_false, phaseC]
   simp only [] at heq
-  rw [heq, hm]
+  simp only [List.append_assoc] at heq ⊢
+  unfold markedSpec at hmk
+  rw [heq, hm, hmk]
   exact ⟨_, _, rfl⟩
+
+/-- A binding that is — or evaluates to — the marker itself (`f.x = %gin.REQUIRED`, never overridden) makes the call
+    fail before the function runs, whatever the caller marks or the signature demands (D52). -/
+theorem bound_marker_fails (ev : Val → Val) (c : Cfgable) (cfg : Store) (σ : Scope)
+    (args : List Val) (kwargs : AList String Val)
+    (hnv : (args.drop (c.sig.args.take args.length).length).any Val.isRequired = false)
+    (hd : KwDisjoint c args kwargs) (hkn : (keys kwargs).Nodup) (hmk : markedSpec ev c cfg σ args kwargs ≠ []) :
+    ∃ names, wrapperCall ev c cfg σ args kwargs = .error (.missingRequired names) :=
+  ⟨_, missing_reported ev c cfg σ args kwargs hnv hd hkn (by
+    intro h; exact hmk (List.append_eq_nil_iff.1 h).1)⟩
 
 theorem substArgs_clean (names : List String) (args : List Val) (kw : AList String Val)
     (hfound : ∀ n ∈ reqNamesOf names args, contains n kw = true)
@@ -202,76 +343,100 @@ theorem substArgs_clean (names : List String) (args : List Val) (kw : AList Stri
           · exact hm
         · simpa using hrest
 
-/-- The REQUIRED marker itself never reaches the wrapped function: on success no delivered
-    positional or keyword argument is the marker (bound values are assumed not to evaluate to the
-    marker, which is what `%gin.REQUIRED` bindings and the finalize hook of C12 are about). -/
+/-- `phaseC` never lets the marker through: whatever the bindings evaluated to. -/
+theorem phaseC_no_marker (c : Cfgable) (a : PhaseA) (args : List Val) (kwargs evd0 : AList String Val) (d : Delivered)
+    (hkn : (keys kwargs).Nodup)
+    (hreq : a.reqNames = reqNamesOf a.argNames args)
+    (hcr : a.callerReq = (kwargs.filter (fun kv => kv.2.isRequired)).map (·.1))
+    (hrest : ∀ x ∈ args.drop a.argNames.length, x.isRequired = false)
+    (h : phaseC c a args kwargs evd0 = .ok d) :
+    (∀ x ∈ d.args, x.isRequired = false) ∧ (∀ kv ∈ d.kwargs, kv.2.isRequired = false) := by
+  unfold phaseC at h
+  simp only [] at h
+  split at h
+  · cases h
+  · rename_i hmiss
+    simp only [Except.ok.injEq] at h
+    subst h
+    have hnil : (List.filter (fun n => !(kwSupplied kwargs).contains n) (markerNames evd0)) ++
+        List.filter (fun n => !contains n (dropMarkers evd0) && !((List.filter (fun n => !(kwSupplied kwargs).contains n) (markerNames evd0))).contains n) a.reqNames ++
+        List.filter (fun rk => !a.argNames.contains rk && !contains rk kwargs &&
+          !contains rk (popAll (dropMarkers evd0) a.reqNames) && !((List.filter (fun n => !(kwSupplied kwargs).contains n) (markerNames evd0))).contains rk) c.requiredKwargs ++
+        List.filter (fun rk => !contains rk (popAll (dropMarkers evd0) a.reqNames) && !((List.filter (fun n => !(kwSupplied kwargs).contains n) (markerNames evd0))).contains rk)
+          a.callerReq = [] := by
+      cases hl : ((List.filter (fun n => !(kwSupplied kwargs).contains n) (markerNames evd0)) ++
+        List.filter (fun n => !contains n (dropMarkers evd0) && !((List.filter (fun n => !(kwSupplied kwargs).contains n) (markerNames evd0))).contains n) a.reqNames ++
+        List.filter (fun rk => !a.argNames.contains rk && !contains rk kwargs &&
+          !contains rk (popAll (dropMarkers evd0) a.reqNames) && !((List.filter (fun n => !(kwSupplied kwargs).contains n) (markerNames evd0))).contains rk) c.requiredKwargs ++
+        List.filter (fun rk => !contains rk (popAll (dropMarkers evd0) a.reqNames) && !((List.filter (fun n => !(kwSupplied kwargs).contains n) (markerNames evd0))).contains rk)
+          a.callerReq) with
+      | nil => rfl
+      | cons x xs => rw [hl] at hmiss; simp at hmiss
+    simp only [List.append_eq_nil_iff] at hnil
+    obtain ⟨⟨⟨hmk, hmPos⟩, _⟩, hmKw⟩ := hnil
+    have hclean : ∀ kv ∈ dropMarkers evd0, kv.2.isRequired = false := by
+      intro kv hkv
+      have := (List.mem_filter.1 hkv).2
+      simpa using this
+    refine ⟨?_, ?_⟩
+    · apply substArgs_clean a.argNames args (dropMarkers evd0) ?_ hclean hrest
+      intro n hn
+      rw [← hreq] at hn
+      rw [List.filter_eq_nil_iff] at hmPos
+      have := hmPos n hn
+      rw [hmk] at this
+      simpa using this
+    · intro kv hkv
+      rcases mem_of_mem_update _ _ kv hkv with hk | hk
+      · exact hclean kv ((popAll_sublist _ _).subset hk)
+      · have hin : kv ∈ kwargs := (popAll_sublist _ _).subset hk
+        cases hrq : kv.2.isRequired with
+        | false => rfl
+        | true =>
+          exfalso
+          have hmem : kv.1 ∈ a.callerReq := by
+            rw [hcr]
+            exact List.mem_map_of_mem (f := (·.1))
+              (List.mem_filter (p := fun kv : String × Val => kv.2.isRequired).2 ⟨hin, hrq⟩)
+          rw [List.filter_eq_nil_iff] at hmKw
+          have hfound := hmKw kv.1 hmem
+          rw [hmk] at hfound
+          have hc : contains kv.1 (popAll (dropMarkers evd0) a.reqNames) = true := by
+            cases hcc : contains kv.1 (popAll (dropMarkers evd0) a.reqNames) with
+            | true => rfl
+            | false => rw [hcc] at hfound; simp at hfound
+          have hpopped : lookup kv.1 (popAll kwargs
+              (List.filter (fun rk => contains rk (popAll (dropMarkers evd0) a.reqNames)) a.callerReq)) = none := by
+            rw [lookup_popAll _ hkn]
+            rw [if_pos (List.mem_filter.2 ⟨hmem, hc⟩)]
+          have hsome := (lookup_isSome_iff kv.1 _).2 (mem_keys_of_mem _ kv.1 kv.2 hk)
+          rw [hpopped] at hsome
+          simp at hsome
+
+/-- **The REQUIRED marker itself never reaches the wrapped function**: on success no delivered positional or keyword
+    argument is the marker — whatever the bindings hold or evaluate to (a binding that is the marker makes the call
+    fail, `bound_marker_fails`; until D52 the model needed the hypothesis that no binding evaluates to the marker,
+    and the code delivered it). -/
 theorem marker_never_delivered (ev : Val → Val) (c : Cfgable) (cfg : Store) (σ : Scope)
     (args : List Val) (kwargs : AList String Val) (d : Delivered) (op : AList String Val)
-    (hev : ∀ v, (ev v).isRequired = false) (hkn : (keys kwargs).Nodup)
+    (hkn : (keys kwargs).Nodup)
     (h : wrapperCall ev c cfg σ args kwargs = .ok (d, op)) :
     (∀ x ∈ d.args, x.isRequired = false) ∧ (∀ kv ∈ d.kwargs, kv.2.isRequired = false) := by
   unfold wrapperCall phaseA at h
   by_cases hnv : (args.drop (c.sig.args.take args.length).length).any Val.isRequired = true
   · simp only [hnv, ↓reduceIte] at h; cases h
-  · simp only [hnv, Bool.false_eq_true, if_false, phaseC] at h
+  · simp only [hnv, Bool.false_eq_true, if_false] at h
     split at h
     · cases h
     · rename_i d' hd'
-      split at hd'
-      · cases hd'
-      · rename_i hmiss
-        simp only [Except.ok.injEq] at hd' h
-        obtain ⟨h1, _⟩ := Prod.mk.inj h
-        subst h1; subst hd'
-        simp only [Bool.not_eq_true, Bool.not_eq_eq_eq_not, Bool.not_true, List.isEmpty_eq_false_iff,
-          ne_eq, Decidable.not_not, List.append_eq_nil_iff] at hmiss
-        obtain ⟨⟨hmPos, _⟩, hmKw⟩ := hmiss
-        have hevd : ∀ kv ∈ evalKw ev (popAll (getBindings cfg c.selector σ)
-            (List.filter (fun n => !(reqNamesOf (c.sig.args.take args.length) args).contains n)
-              (c.sig.args.take args.length))), kv.2.isRequired = false := by
-          intro kv hkv
-          simp only [evalKw, List.mem_map] at hkv
-          obtain ⟨kv0, _, rfl⟩ := hkv
-          exact hev _
-        refine ⟨?_, ?_⟩
-        · apply substArgs_clean _ _ _ ?_ hevd ?_
-          · intro n hn
-            rw [List.filter_eq_nil_iff] at hmPos
-            have := hmPos n hn
-            simpa using this
-          · intro x hx
-            rw [Bool.not_eq_true, List.any_eq_false] at hnv
-            have := hnv x hx
-            simpa using this
-        · intro kv hkv
-          rcases mem_of_mem_update _ _ kv hkv with hk | hk
-          · exact hevd kv ((popAll_sublist _ _).subset hk)
-          · -- a caller keyword that survived: it cannot be a marker
-            have hin : kv ∈ kwargs := (popAll_sublist _ _).subset hk
-            cases hreq : kv.2.isRequired with
-            | false => rfl
-            | true =>
-              exfalso
-              have hcr : kv.1 ∈ (kwargs.filter (fun kv => kv.2.isRequired)).map (·.1) :=
-                List.mem_map_of_mem (f := (·.1)) (List.mem_filter.2 ⟨hin, hreq⟩)
-              rw [List.filter_eq_nil_iff] at hmKw
-              have hfound := hmKw kv.1 hcr
-              have hpopped : lookup kv.1 (popAll kwargs
-                  (List.filter (fun rk => contains rk (popAll (evalKw ev (popAll (getBindings cfg c.selector σ)
-                    (List.filter (fun n => !(reqNamesOf (c.sig.args.take args.length) args).contains n)
-                      (c.sig.args.take args.length)))) (reqNamesOf (c.sig.args.take args.length) args)))
-                    ((kwargs.filter (fun kv => kv.2.isRequired)).map (·.1)))) = none := by
-                rw [lookup_popAll _ hkn]
-                simp only [List.mem_filter, hcr, true_and]
-                rw [if_pos (by
-                  cases hc : contains kv.1 (popAll (evalKw ev (popAll (getBindings cfg c.selector σ)
-                    (List.filter (fun n => !(reqNamesOf (c.sig.args.take args.length) args).contains n)
-                      (c.sig.args.take args.length)))) (reqNamesOf (c.sig.args.take args.length) args)) with
-                  | true => rfl
-                  | false => rw [hc] at hfound; exact absurd rfl hfound)]
-              have hsome := (lookup_isSome_iff kv.1 _).2 (mem_keys_of_mem _ kv.1 kv.2 hk)
-              rw [hpopped] at hsome
-              simp at hsome
+      simp only [Except.ok.injEq, Prod.mk.injEq] at h
+      obtain ⟨h1, _⟩ := h
+      subst h1
+      refine phaseC_no_marker c _ args kwargs _ d' hkn rfl rfl ?_ hd'
+      intro x hx
+      rw [Bool.not_eq_true, List.any_eq_false] at hnv
+      have := hnv x hx
+      simpa using this
 
 /-- A signature-level REQUIRED on a parameter that is denylisted or not allowlisted is rejected at
     registration: a registration that succeeds has every REQUIRED default configurable. -/
